@@ -210,7 +210,7 @@ func registerHarnesses() {
 	// undone by Merge's rewrite, which is the known non-isolation finding) and a reader of them
 	harnesses["C17/merge-structs/KV"] = func() *harness {
 		return &harness{name: "C17s", cfg: core.Cfg{Mode: core.KV, Seg: 100}, ndb: 1, classes: classesFor(core.KV),
-			setup: []core.Op{up(put("k1", "x")), up(core.Call{F: "SAdd", B: bS, K: "k", Vs: []string{"m"}}), up(core.Call{F: "ZAdd", B: bZ, K: "a", X: 1, V: "va"}), up(put("k1", "y"))},
+			setup:   []core.Op{up(put("k1", "x")), up(core.Call{F: "SAdd", B: bS, K: "k", Vs: []string{"m"}}), up(core.Call{F: "ZAdd", B: bZ, K: "a", X: 1, V: "va"}), up(put("k1", "y"))},
 			queries: append(kvQueries("k1"), core.Call{F: "SMembers", B: bS, K: "k"}, core.Call{F: "ZMembers", B: bZ}, core.Call{F: "SIsMember", B: bS, K: "k", V: "n"}),
 			threads: []hthread{
 				{name: "M", kind: "merge"},
